@@ -6,10 +6,13 @@ import (
 	"net/http/httptest"
 	"os"
 	"path/filepath"
+	"sort"
 	"strings"
 	"sync"
 	"syscall"
 	"time"
+
+	zxcvbn "github.com/nbutton23/zxcvbn-go"
 )
 
 func runC12(em *vEmitter, r *vRng) {
@@ -23,6 +26,16 @@ func runC12(em *vEmitter, r *vRng) {
 		def := uint(1 + r.intn(3))
 		ms := mNewStore("c12", r, def)
 		pw := map[string]string{}
+		// every eighth sequence: the agent runs with a password policy (an upgrade is an update with the
+		// login password and goes through the policy); the estimator is called by the harness itself
+		withPolicy := mode == "local" && si%8 == 4
+		const polMin = 3
+		refused := map[[2]string]bool{}
+		rate := func(p, u string) {
+			if withPolicy && zxcvbn.PasswordStrength(p, []string{u, "whawty"}).Score < polMin {
+				refused[[2]string{p, u}] = true
+			}
+		}
 		for i, u := range users {
 			pid := uint(1 + r.intn(3))
 			sl := 16
@@ -30,6 +43,10 @@ func runC12(em *vEmitter, r *vRng) {
 				sl = 32
 			}
 			pw[u] = fmt.Sprintf("pw-%s-%d", u, r.intn(100))
+			if withPolicy && i%2 == 0 {
+				// strong enough for the policy, while the user NAME rated as a password is not
+				pw[u] = fmt.Sprintf("Xq7#%s-vT9!m2L%d-kRz", strings.ToUpper(u[:1])+u[3:], r.intn(1000))
+			}
 			tail := []string{"", "totp: QUJD\n", "u2f: x\ntotp: y", "\x00\xff\n"}[r.intn(4)]
 			if si%5 == 2 && i == 1 {
 				// more auxiliary data than one 4 KiB buffer holds, in distinguishable lines
@@ -44,7 +61,11 @@ func runC12(em *vEmitter, r *vRng) {
 			}
 			ms.plant(u, i == 0, pid, 1600000000+int64(i), r.bytes(sl), []byte(pw[u]), tail)
 		}
-		st, err := NewStore(ms.cfgfile, mode, "", "", "")
+		polType, polCond := "", ""
+		if withPolicy {
+			polType, polCond = "zxcvbn", fmt.Sprintf("score >= %d", polMin)
+		}
+		st, err := NewStore(ms.cfgfile, mode, polType, polCond, "")
 		if err != nil {
 			panic(err)
 		}
@@ -110,6 +131,17 @@ func runC12(em *vEmitter, r *vRng) {
 			if mode == "" {
 				m = "UOff"
 			}
+			if withPolicy {
+				var rf []string
+				for k := range refused {
+					rf = append(rf, fmt.Sprintf("(%s, %s)", cS(k[0]), cS(k[1])))
+				}
+				sort.Strings(rf)
+				em.emit(vCase{Prop: "C12", Kind: "upgrade-seq", Class: class + "/policy", Nontrivial: true,
+					Coq:   fmt.Sprintf("UpgSeqP %s %s %s %s %s %s", ms.cfgTerm(), ms.tablesTerm(), m, cList(rf), initDir, cList(steps)),
+					Human: map[string]interface{}{"default": def, "mode": mode, "logins": human, "policy": polCond, "refused_pairs": len(rf)}})
+				return
+			}
 			em.emit(vCase{Prop: "C12", Kind: "upgrade-seq", Class: class, Nontrivial: true,
 				Coq:   fmt.Sprintf("UpgSeq %s %s %s %s %s", ms.cfgTerm(), ms.tablesTerm(), m, initDir, cList(steps)),
 				Human: map[string]interface{}{"default": def, "mode": mode, "logins": human}})
@@ -142,6 +174,7 @@ func runC12(em *vEmitter, r *vRng) {
 				p = []string{"wrong", p + "x", strings.ToUpper(p), ""}[r.intn(4)]
 			}
 			ms.prepAuth(u, []byte(p))
+			rate(p, u)
 			var ok, adm bool
 			var lc time.Time
 			if k%2 == 0 {
